@@ -5,9 +5,206 @@ instance the following ops are evaluated with.  Output numbers are printed as
 `m e` (= m·2^e, m odd) — the format of `vh::exactDouble` in harness/common.hpp.
 -/
 import SharkVerif.Model.Loss
+import SharkVerif.Model.Loss2
+import SharkVerif.Model.ErrFn
 import Driver.Util
 import SharkVerif.Gen.ParRegions
-open SharkVerif SharkVerif.Loss SharkVerif.Scalar
+open SharkVerif SharkVerif.Loss SharkVerif.Scalar SharkVerif.Models SharkVerif.ErrFn
+
+def parseAct6 : String → Option Act
+  | "linear" => some .linear | "rectifier" => some .rectifier | _ => none
+
+def mkDense6 {α} [Num α] (act : Act) (hasB : Bool) (nIn nOut : Nat) (p : List α) : Dense α :=
+  let m : Dense α := { nIn := nIn, nOut := nOut, W := fun _ _ => 0, hasB := hasB, b := fun _ => 0, act := act }
+  m.setParams p
+
+/-- `nIn act:hasB:nOut …` with the parameters of all layers in layer order; every layer optimised -/
+def buildNet {α} [Num α] (spec : List String) (p : List α) : Option (ModelFn α × Nat) :=
+  match spec with
+  | [] => none
+  | nIn :: layers =>
+    match nIn.toNat? with
+    | none => none
+    | some nIn =>
+      let rec go (ls : List String) (cur : Nat) (p : List α) (acc : Chain α) : Option (Chain α × Nat) :=
+        match ls with
+        | [] => some (acc.reverse, cur)
+        | l :: rest =>
+          match l.splitOn ":" with
+          | [act, hb, nOut] =>
+            match parseAct6 act, hb.toNat?, nOut.toNat? with
+            | some act, some hb, some nOut =>
+              let np := nOut * cur + (if hb == 1 then nOut else 0)
+              go rest nOut (p.drop np) ((Layer.dense (mkDense6 act (hb == 1) cur nOut (p.take np)), true) :: acc)
+            | _, _, _ => none
+          | _ => none
+      match go layers nIn p [] with
+      | some (ch, nOut) => some (ofChain Num.tanh Num.exp ch nOut, nIn)
+      | none => none
+
+def showRes {α} [Num α] (deriv : Bool) (r : α × List α) : String :=
+  if deriv then s!"V={Num.shw r.1} G={showVec r.2}" else s!"V={Num.shw r.1}"
+
+/-- batches of the data set from the flat op-line data -/
+def mkBatches {α L} [Num α] (nIn : Nat) (sizes : List Nat) (xs : List α) (labelsOf : Nat → Nat → List L) (ws : List α) :
+    Nat → Batch α L :=
+  let xa := xs.toArray
+  let starts := sizes.foldl (fun (acc : List Nat × Nat) s => (acc.1 ++ [acc.2], acc.2 + s)) ([], 0)
+  fun b =>
+    let pos := starts.1.getD b 0
+    let n := sizes.getD b 0
+    { n := n, X := fun i j => xa.getD ((pos + i) * nIn + j) 0, labels := labelsOf pos n,
+      weights := (ws.drop pos).take n }
+
+def runEf {α L} [Num α] (deriv : Bool) (loss : LossFn α L) (f : ModelFn α) (nIn : Nat) (tv : List Nat) (sizes : List Nat)
+    (xs : List α) (labelsOf : Nat → Nat → List L) (params : List α) (extra : List String) : String :=
+  let B := sizes.length
+  let threads := tv.getD 0 1
+  let order := tv.drop 1
+  match extra with
+  | ["none"] =>
+    let bs := mkBatches nIn sizes xs labelsOf []
+    if deriv then showRes true (evalDerivative f loss bs B threads order) else showRes false (eval f loss bs B threads order, [])
+  | "w" :: wts =>
+    match wts.mapM (parseDy (α := α)) with
+    | some ws =>
+      let bs := mkBatches nIn sizes xs labelsOf ws
+      if deriv then showRes true (wEvalDerivative f loss bs B order) else showRes false (wEval f loss bs B order, [])
+    | none => "bad-op"
+  | ["mini", _] =>
+    let bs := mkBatches nIn sizes xs labelsOf []
+    " # ".intercalate ((List.range B).map fun b =>
+      if deriv then showRes true (miniEvalDerivative f loss bs b) else showRes false (miniEval f loss bs b, []))
+  | "reg" :: kind :: strength :: mask =>
+    match parseDy (α := α) strength, mask.mapM (parseDy (α := α)) with
+    | some st, some msk =>
+      let bs := mkBatches nIn sizes xs labelsOf []
+      let regV : α := if kind == "one" then (if msk.isEmpty then oneNorm params else oneNormMasked msk params)
+                      else (if msk.isEmpty then twoNorm params else twoNormMasked msk params)
+      let regG : List α := if kind == "one" then (if msk.isEmpty then params.map sign else List.zipWith (fun xi mi => sign xi * mi) params msk)
+                           else (if msk.isEmpty then params else List.zipWith (fun xi mi => mi * xi) params msk)
+      if deriv then showRes true (regEvalDerivative (evalDerivative f loss bs B threads order) st (regV, regG))
+      else showRes false (regEval (eval f loss bs B threads order) st regV, [])
+    | _, _ => "bad-op"
+  | ["comb", c0, c1, c2] =>
+    match parseDy (α := α) c0, parseDy (α := α) c1, parseDy (α := α) c2 with
+    | some c0, some c1, some c2 =>
+      let bs := mkBatches nIn sizes xs labelsOf []
+      if deriv then
+        showRes true (combinedEvalDerivative [(c0, evalDerivative f loss bs B threads order), (c1, (twoNorm params, params)), (c2, (oneNorm params, params.map sign))])
+      else showRes false (combinedEval [(c0, eval f loss bs B threads order), (c1, twoNorm params), (c2, oneNorm params)], [])
+    | _, _, _ => "bad-op"
+  | _ => "bad-op"
+
+def showSeqGrad {α} [Num α] (g : List (List (List α))) : String :=
+  "/".intercalate (g.map fun s => ";".intercalate (s.map showVec))
+
+/-- split a flat list into consecutive pieces of the given lengths -/
+def splitBy {β} (lens : List Nat) (l : List β) : List (List β) :=
+  (lens.foldl (fun (acc : List (List β) × List β) n => (acc.1 ++ [acc.2.take n], acc.2.drop n)) ([], l)).1
+
+def runOp2 {α} [Num α] (secs : List (List String)) : Option String :=
+  let nums : List String → Option (List α) := fun ts => ts.mapM parseDy
+  let nats (ts : List String) : Option (List Nat) := ts.mapM String.toNat?
+  match secs with
+  | [["hess", "crossentropy"], _, dims, [lab], prs] =>
+    match nats dims, lab.toNat?, nums prs with
+    | some [_, _], some c, some p =>
+      let r := ceHessian (α := α) Num.exp Num.log c p
+      some s!"V={Num.shw r.1} G={showVec r.2.1} H={showMat r.2.2}"
+    | _, _, _ => some "bad-op"
+  | [[_, "zeroonelabel"], _, _, labs, prs] =>
+    match nats labs, nats prs with
+    | some l, some p => some s!"V={Num.shw (zeroOneLabelEval (α := α) l p)}"
+    | _, _ => some "bad-op"
+  | [[_, "discrete"], par, dims, labs, prs] =>
+    match nums par, nats dims, nats labs, nats prs with
+    | some c, some [_, k], some l, some p =>
+      let ca := c.toArray
+      some s!"V={Num.shw (discreteEval (fun a b => ca.getD (a * k + b) 0) l p)}"
+    | _, _, _, _ => some "bad-op"
+  | [[_, "balanced"], _, dims, labs, prs] =>
+    match nats dims, nats labs, nats prs with
+    | some [_, k], some l, some p => some s!"V={Num.shw (discreteEval (balancedCost (α := α) k l) l p)}"
+    | _, _, _ => some "bad-op"
+  | [["seq", kind], [ig, d], lens, labs, prs] =>
+    match ig.toNat?, d.toNat?, nats lens, nums labs, nums prs with
+    | some ig, some d, some lens, some l, some p =>
+      let L := splitBy lens (chunk l d)
+      let P := splitBy lens (chunk p d)
+      if (lens.any fun n => n ≤ ig) then some "exception" else
+      if kind == "deriv" then let r := squaredSeqEvalDerivative ig L P; some s!"V={Num.shw r.1} G={showSeqGrad r.2}"
+      else some s!"V={Num.shw (squaredSeqEval ig L P)}"
+    | _, _, _, _, _ => some "bad-op"
+  | [["ef", kind], loss :: par, spec, tv, ps, sizes, xs, labs, extra] =>
+    match nats tv, nums ps, nats sizes, nums xs, nums par with
+    | some tv, some params, some sizes, some xs, some par =>
+      match buildNet spec params with
+      | some (f, nIn) =>
+        let deriv := kind == "deriv"
+        let m := f.m
+        let vecL : Option (Nat → Nat → List (List α)) := (nums labs).map fun l =>
+          let rows := chunk l m; fun pos n => (rows.drop pos).take n
+        let clsL : Option (Nat → Nat → List Nat) := (nats labs).map fun l => fun pos n => (l.drop pos).take n
+        match loss, vecL, clsL with
+        | "squared", some lo, _ => some (runEf deriv squaredLoss f nIn tv sizes xs lo params extra)
+        | "epshinge", some lo, _ => some (runEf deriv (epsHingeLoss (par.getD 0 0)) f nIn tv sizes xs lo params extra)
+        | "sqepshinge", some lo, _ => some (runEf deriv (sqEpsHingeLoss (sqr (par.getD 0 0))) f nIn tv sizes xs lo params extra)
+        | "squaredclass", _, some lo => some (runEf deriv squaredClassLoss f nIn tv sizes xs lo params extra)
+        | "hinge", _, some lo => some (runEf deriv hingeLoss f nIn tv sizes xs lo params extra)
+        | "sqhinge", _, some lo => some (runEf deriv sqHingeLoss f nIn tv sizes xs lo params extra)
+        | _, _, _ => some "bad-op"
+      | none => some "bad-op"
+    | _, _, _, _, _ => some "bad-op"
+  | [["cost", loss], par, tv, sizes, [m], labs, prs] =>
+    match nums par, nats tv, nats sizes, m.toNat?, nums prs with
+    | some par, some tv, some sizes, some m, some p =>
+      let rows := chunk p m
+      let n := sizes.sum
+      let order := tv.drop 1
+      let pieces := splitBy sizes rows
+      let ne : α := Scalar.ofNat n
+      let vec : Option (List (List (List α))) := (nums labs).map fun l => splitBy sizes (chunk l m)
+      let cls : Option (List (List Nat)) := (nats labs).map fun l => splitBy sizes l
+      match loss, vec, cls with
+      | "squared", some lb, _ => some s!"V={Num.shw (costEval (fun b => squaredEval (lb.getD b []) (pieces.getD b [])) order ne)}"
+      | "epshinge", some lb, _ => some s!"V={Num.shw (costEval (fun b => epsHingeEval (par.getD 0 0) (lb.getD b []) (pieces.getD b [])) order ne)}"
+      | "hinge", _, some lb => some s!"V={Num.shw (costEval (fun b => hingeEval (lb.getD b []) (pieces.getD b [])) order ne)}"
+      | "zeroone", _, some lb => some s!"V={Num.shw (costEval (fun b => zeroOneEval (par.getD 0 0) (lb.getD b []) (pieces.getD b [])) order ne)}"
+      | _, _, _ => some "bad-op"
+    | _, _, _, _, _ => some "bad-op"
+  | [[op, inv], _, labs, scs] =>
+    if op == "auc" || op == "wmw" then
+      match nats labs, nums scs with
+      | some l, some sc =>
+        let elems := List.zipWith (fun s c => (s, c)) sc l
+        if op == "auc" then some s!"V={Num.shw (negativeAUC (α := α) (inv == "1") elems)}"
+        else some s!"V={Num.shw (negativeWMW (α := α) (inv == "1") elems)}"
+      | _, _ => some "bad-op"
+    else none
+  | [["zow"], [thr], sizes, [m], labs, prs, wts] =>
+    match parseDy (α := α) thr, nats sizes, m.toNat?, nats labs, nums prs, nums wts with
+    | some thr, some sizes, some m, some l, some p, some w =>
+      let elems := List.zipWith (fun c r => (c, r)) l (chunk p m)
+      some s!"V={Num.shw (zeroOneWeightedEval thr (splitBy sizes elems) w)}"
+    | _, _, _, _, _, _ => some "bad-op"
+  | _ => none
+
+/-- NegativeLogLikelihood (float only: `minProb = 1e-100`) -/
+def runNll (secs : List (List String)) : Option String :=
+  match secs with
+  | [["nll", kind], spec, _, ps, sizes, xs] =>
+    match ps.mapM (parseDy (α := Float)), sizes.mapM String.toNat?, xs.mapM (parseDy (α := Float)) with
+    | some params, some sizes, some xs =>
+      match buildNet spec params with
+      | some (f, nIn) =>
+        let bs : Nat → Batch Float Unit := mkBatches nIn sizes xs (fun _ _ => []) []
+        let B := sizes.length
+        if kind == "deriv" then some (showRes true (nllEvalDerivative Float.log 1e-100 f bs B 1 [0]))
+        else some (showRes false (nllEval Float.log 1e-100 f bs B (List.range B), []))
+      | none => some "bad-op"
+    | _, _, _ => some "bad-op"
+  | _ => none
 
 def runOp {α} [Num α] (secs : List (List String)) : String :=
   let nums : List String → Option (List α) := fun ts => ts.mapM parseDy
@@ -30,7 +227,12 @@ def runOp {α} [Num α] (secs : List (List String)) : String :=
         if kind == "deriv" then let r := squaredClassEvalDerivative c preds; out r.1 (some r.2) else out (squaredClassEval c preds) none
       | "hinge", _, some c =>
         if kind == "deriv" then let r := hingeEvalDerivative c preds; out r.1 (some r.2) else out (hingeEval c preds) none
-      | "sqhinge", _, some c => out (sqHingeEval c preds) none
+      | "sqhinge", _, some c =>
+        if kind == "deriv" then let r := sqHingeEvalDerivative c preds; out r.1 (some r.2) else out (sqHingeEval c preds) none
+      | "absolute", some l, _ => out (absoluteEval Num.sqrt l preds) none
+      | "crossentropysoft", some l, _ =>
+        if kind == "deriv" then let r := ceSoftEvalDerivative Num.exp Num.log l preds; out r.1 (some r.2)
+        else out (ceSoftEval Num.exp Num.log l preds) none
       | "epshinge", some l, _ =>
         let eps := par.getD 0 0
         if kind == "deriv" then let r := epsHingeEvalDerivative eps l preds; out r.1 (some r.2) else out (epsHingeEval eps l preds) none
@@ -81,7 +283,17 @@ partial def loop (h : IO.FS.Stream) (out : IO.FS.Stream) (float : Bool) : IO Uni
   | [["mode", "float"]] => out.putStrLn "ok"; loop h out true
   | [["mode", "rat"]] => out.putStrLn "ok"; loop h out false
   | _ =>
-    out.putStrLn (if float then runOp (α := Float) secs else runOp (α := Rat) secs)
+    let r : String :=
+      if float then
+        match runNll secs with
+        | some r => r
+        | none => match runOp2 (α := Float) secs with
+          | some r => r
+          | none => runOp (α := Float) secs
+      else match runOp2 (α := Rat) secs with
+        | some r => r
+        | none => runOp (α := Rat) secs
+    out.putStrLn r
     loop h out float
 
 def main : IO Unit := do loop (← IO.getStdin) (← IO.getStdout) false
